@@ -1373,6 +1373,53 @@ neg("C14", "neg-ring-constructor-locals", "constructor builds the ring through l
 neg("C14", "neg-writewait-end-local", "WriteWait with the end index in a local and the test reversed",
     [(BUF, "	if pstart+int64(cnt) > bf.size {\n		return bf.buf[pstart:], true, nil\n	}\n\n	return bf.buf[pstart : pstart+int64(cnt)], false, nil", "	end := pstart + int64(cnt)\n	if end <= bf.size {\n		return bf.buf[pstart:end], false, nil\n	}\n\n	return bf.buf[pstart:], true, nil")])
 
+# ---------------------------------------------------------------- ring space accounting (B11)
+pos("C14", "space-wait-accepts-one-byte-overlap", "fast path and wait loop both let the producer lap the consumer by one byte (consistent edit: L3c stays silent)",
+    [(BUF, "	if wrap > gate || gate > ppos {", "	if wrap > gate+1 || gate > ppos {"),
+     (BUF, "		for cpos = bf.cseq.get(); wrap > cpos; cpos = bf.cseq.get() {", "		for cpos = bf.cseq.get(); wrap > cpos+1; cpos = bf.cseq.get() {")],
+    ["C14/B11-ring-space-accounting/waitForWriteSpace:return#1:space-is-free"])
+pos("C14", "space-gate-cached-ahead", "the cached gate is advanced beyond what was read from the consumer",
+    [(BUF, "		bf.pseq.gate = cpos\n", "		bf.pseq.gate = cpos + defaultReadBlockSize\n")],
+    ["C14/B11-ring-space-accounting/waitForWriteSpace:store(pseq.gate):value-is-a-read-of-the-other-cursor"])
+pos("C14", "space-readcommit-beyond-producer", "ReadCommit no longer checks the commit against the producer position",
+    [(BUF, "	if cpos+int64(n) <= ppos {\n		bf.cseq.set(cpos + int64(n))", "	if cpos <= ppos {\n		bf.cseq.set(cpos + int64(n))")],
+    ["C14/B11-ring-space-accounting/ReadCommit:store(cseq)#1:never-passes-the-producer"])
+pos("C14", "space-readpeek-hands-out-more-than-available", "ReadPeek clamps the peek to the request instead of to what is available",
+    [(BUF, "	if m >= int64(n) {\n		m = int64(n)\n	} else {\n		err = ErrBufferInsufficientData\n	}\n\n	// There's data to peek. The size of the data could be <= n.\n	if cpos+m <= ppos {", "	if m < int64(n) {\n		err = ErrBufferInsufficientData\n	}\n	m = int64(n)\n\n	// There's data to peek. The size of the data could be <= n.\n	if cpos <= ppos {")],
+    ["C14/B11-ring-space-accounting/ReadPeek:return"])
+pos("C14", "space-writecommit-commits-more-than-reserved", "WriteCommit rounds the commit up to a block",
+    [(BUF, "	bf.pseq.set(start + int64(cnt))\n", "	bf.pseq.set(start + int64(cnt) + 1)\n")],
+    ["C14/B11-ring-space-accounting/WriteCommit:store(pseq)#1:commits-exactly-the-reservation"])
+pos("C14", "space-readfrom-window-exceeds-reservation", "the socket reader reads into the whole rest of the ring instead of the reserved block",
+    [(BUF, "		pend := pstart + int64(cnt)\n		if pend > bf.size {\n			pend = bf.size\n		}\n", "		pend := bf.size\n		_ = cnt\n")],
+    ["C14/B11-ring-space-accounting/ReadFrom:slice#1:write-window-within-the-reservation"])
+pos("C14", "space-read-advances-by-request", "Read advances the consumer by the size of the caller's buffer instead of by the bytes copied",
+    [(BUF, "				n = copy(p, bf.buf[cindex:])\n			}\n\n			bf.cseq.set(cpos + int64(n))", "				n = copy(p, bf.buf[cindex:])\n			}\n\n			bf.cseq.set(cpos + pl)")],
+    ["C14/B11-ring-space-accounting/Read:store(cseq)#2:never-passes-the-producer"])
+neg("C14", "neg-space-wait-rewritten", "space wait with the comparison written the other way round and the free space in a local",
+    [(BUF, "	if wrap > gate || gate > ppos {", "	if gate < wrap || ppos < gate {"),
+     (BUF, "		for cpos = bf.cseq.get(); wrap > cpos; cpos = bf.cseq.get() {", "		for cpos = bf.cseq.get(); cpos < wrap; cpos = bf.cseq.get() {")])
+neg("C14", "neg-space-readcommit-next-local", "ReadCommit computes the next position once",
+    [(BUF, "	if cpos+int64(n) <= ppos {\n		bf.cseq.set(cpos + int64(n))", "	next := cpos + int64(n)\n	if next <= ppos {\n		bf.cseq.set(next)")])
+neg("C14", "neg-space-writecommit-next-local", "WriteCommit computes the next position in a local",
+    [(BUF, "	bf.pseq.set(start + int64(cnt))\n", "	next := start + int64(cnt)\n	bf.pseq.set(next)\n")])
+
+# ---------------------------------------------------------------- decode within the packet (B12)
+_NOTE = "\t// The packet ends where its remaining length says, not where src ends.\n\tsrc = src[:total+int(m.remlen)]\n"
+pos("C04", "puback-reads-beyond-packet", "the PUBACK family takes the packet id from whatever follows a packet whose remaining length is 0",
+    [("message/puback.go", _NOTE, "")],
+    ["C04/B12-decode-within-packet/(*message.PubackMessage).Decode:return#1:count-within-the-packet"])
+pos("C04", "subscribe-reads-beyond-packet", "SUBSCRIBE reads filters from whatever follows the packet",
+    [(SUB, _NOTE, "")],
+    ["C04/B12-decode-within-packet/(*message.SubscribeMessage).Decode:return#1:count-within-the-packet"])
+pos("C04", "connect-reads-beyond-packet", "CONNECT reads its fields from whatever follows the packet",
+    [(CONN, _NOTE, "")],
+    ["C04/B12-decode-within-packet/(*message.ConnectMessage).Decode:return#1:count-within-the-packet"])
+neg("C04", "neg-puback-body-from-image", "the PUBACK body is decoded from the header's packet image",
+    [("message/puback.go", _NOTE, "\tsrc = m.dbuf\n")])
+neg("C04", "neg-unsubscribe-packet-end-local", "UNSUBSCRIBE computes the packet end in a local",
+    [("message/unsubscribe.go", _NOTE, "\tend := total + int(m.remlen)\n\tsrc = src[:end]\n")])
+
 
 def main():
     os.makedirs(OUT, exist_ok=True)
